@@ -22,7 +22,7 @@ struct AllocRec {
 	int op;            // index of the op during which it was allocated
 };
 
-enum FsKind { FS_FILE = 0, FS_DIR = 1, FS_NOPERM = 2 };
+enum FsKind { FS_FILE = 0, FS_DIR = 1, FS_NOPERM = 2, FS_LINK = 3 }; // FS_LINK: bytes hold the target path
 struct FsNode {
 	FsKind kind = FS_FILE;
 	std::string bytes;
